@@ -139,6 +139,19 @@ def check_quadratic_exact(case, ctx):
               'ypeak': float(j) + case['peak_off'][1] * 0.4}
         if case['search_boxsize']:
             kw['search_boxsize'] = case['search_boxsize']
+            # an approximate guess: anywhere (array edge included) such that
+            # the search box centred on it still contains the maximum
+            h = min(case['search_boxsize'], ny if ny % 2 else ny - 1,
+                    nx if nx % 2 else nx - 1) // 2
+            gs = case.get('guess_shift') or [0, 0]
+            gx = min(max(i + max(-h, min(h, gs[0])), 0), nx - 1)
+            gy = min(max(j + max(-h, min(h, gs[1])), 0), ny - 1)
+            if (gx, gy) != (i, j):
+                kw['xpeak'] = min(max(gx + case['peak_off'][0] * 0.4, 0), nx - 1)
+                kw['ypeak'] = min(max(gy + case['peak_off'][1] * 0.4, 0), ny - 1)
+                ctx.event('guess_off_peak')
+                if gx in (0, nx - 1) or gy in (0, ny - 1):
+                    ctx.event('guess_on_edge')
         ctx.event('xpeak_given')
     # fitting window as documented (shifted inside the array if clipped)
     hy, hx = fb[0] // 2, fb[1] // 2
@@ -193,6 +206,7 @@ def quadratic_cases(draw):
             'give_peak': draw(st.booleans()),
             'peak_off': [draw(st.sampled_from([-1, 0, 1])), draw(st.sampled_from([-1, 0, 1]))],
             'search_boxsize': draw(st.sampled_from([None, 3, 5])),
+            'guess_shift': [draw(st.integers(-2, 2)), draw(st.integers(-2, 2))],
             'nonfinite': draw(st.one_of(st.none(), st.tuples(
                 st.integers(0, 2), st.integers(0, 300)).map(list)))}
 
